@@ -131,6 +131,8 @@ def random_hists(rng, n):
                 attrs.append(("Parent", rng.sample(parents, rng.choice([1, 1, 2]))))
             if rng.random() < 0.3:
                 attrs.append(("Note", [rng.choice(["x", "y"]), rng.choice(["x", "z"])][: rng.choice([1, 2])]))
+            if rng.random() < 0.3:      # the same VALUE under two keys of one feature (Name equal to the ID, Alias equal to n)
+                attrs.append(("Name", [attrs[0][1][0]] + ([attrs[1][1][0]] if rng.random() < 0.5 else [])))
             if rng.random() < 0.25:     # attribute keys that are also names of columns / of Feature fields
                 attrs.append((rng.choice(["source", "score", "strand", "seqid", "featuretype", "frame", "id", "extra", "bin"]), [rng.choice(["curated", "predicted", "7"])]))
             zero = rng.random() < 0.12        # a zero-length feature (end = start - 1): len(feature) == 0, still a feature like any other
